@@ -23,7 +23,10 @@ Scn == [signResp : BOOLEAN, signAssert : BOOLEAN, enc : BOOLEAN, alg : Algs, bin
         \* else (so lifetime and name format still come from "default")
         idpPolicy : {"defaultOnly", "perSPpartial"},
         \* the time zone of the process the SP runs in: instants are UTC whatever it is
-        tz : {"UTC", "east9", "west5"}]            \* the SP's accepted_time_diff: widens acceptance, never what is reported
+        tz : {"UTC", "east9", "west5"},
+        \* how the IdP application spells the attribute names of the identity it hands over: as the attribute maps do, or
+        \* in another letter case (GivenName, SN, MAIL) -- the SP reads the names of its own map either way
+        keyStyle : {"canonical", "caseVariant"}]            \* the SP's accepted_time_diff: widens acceptance, never what is reported
 
 \* what the built response carries (Entity._response): with encryption the assertion signature is made
 \* before encrypting and lives inside the cipher text
@@ -41,6 +44,8 @@ WellFormed(s) == /\ Satisfies(s)
                                                     /\ s.authnCtx = "password_authority")
                  /\ (s.tz # "UTC" => s.vclass = "plain" /\ ~s.wantEither /\ s.alg = "sha256" /\ ~s.unknownAttr /\ s.skew = 0 /\ s.binding = "post"
                                      /\ s.authnCtx = "password_authority" /\ s.idpPolicy = "defaultOnly" /\ s.nameid = "transient")
+                 /\ (s.keyStyle # "canonical" => s.vclass = "plain" /\ ~s.wantEither /\ s.alg = "sha256" /\ s.skew = 0 /\ s.tz = "UTC"
+                                                /\ s.authnCtx = "password_authority" /\ s.idpPolicy = "defaultOnly" /\ s.nameid = "transient")
                  /\ (s.skew # 0 => s.vclass = "plain" /\ ~s.wantEither /\ s.alg = "sha256" /\ s.nameid = "transient" /\ ~s.unknownAttr)
 
 VARIABLES scn, pc
